@@ -85,6 +85,10 @@ static void lsanAfterRun(Result& res) {
         std::string l = line;
         if (l.compare(0, 14, "Direct leak of") == 0) { flush(); direct = true; bytes = atol(l.c_str() + 15); }
         else if (l.compare(0, 16, "Indirect leak of") == 0 || l.compare(0, 8, "SUMMARY:") == 0) flush();
+        else if (direct && l.find("    #") == 0 && l.find(" in ") == std::string::npos) {
+            // a frame without a symbol (a static function of a stripped system library): module name and offset identify it
+            size_t a = l.find('('), b = a == std::string::npos ? a : l.find(')', a); if (b != std::string::npos) { std::string m = l.substr(a + 1, b - a - 1); size_t sl = m.rfind('/'); if (sl != std::string::npos) m = m.substr(sl + 1); frames.push_back(m); }
+        }
         else if (direct) { size_t q = l.find(" in "); if (l.find("    #") == 0 && q != std::string::npos) { std::string fn = l.substr(q + 4); size_t e = fn.find(" /"); if (e == std::string::npos) e = fn.find(" ("); if (e != std::string::npos) fn = fn.substr(0, e); size_t par = fn.find('('); if (par != std::string::npos) fn = fn.substr(0, par); for (const char* ns : { "xalanc_1_12::", "xercesc_3_2::", "icu_72::" }) { size_t z; while ((z = fn.find(ns)) != std::string::npos) fn.erase(z, strlen(ns)); } while (!fn.empty() && (fn.back() == '\n' || fn.back() == ' ')) fn.pop_back(); frames.push_back(fn); } }
     }
     flush(); fclose(f); unlink(file.c_str());
